@@ -396,6 +396,7 @@ func init() {
 				"go/types.Object.Pkg": "Pkg", "go/types.object.Pkg": "Pkg", "go/types.Func.Pkg": "", "go/types.Var.Pkg": "Pkg", "go/types.TypeName.Pkg": "Pkg",
 				pathW + ".qualifiedIdentObject": "qualifiedIdentObject",
 				"go/types.Info.ObjectOf":        "ObjectOf",
+				pathW + ".referencedObject":     "ObjectOf", // Uses-first lookup: nil for identifiers that denote no object
 				"go/types.Scope.Lookup":         "Lookup",
 				pathW + ".objectCache.varDecl":  "varDecl",
 				pathW + ".structArgType":        "structArgType",
